@@ -20,6 +20,9 @@ impl RenameProcessor {
     pub fn new<I: IntoIterator<Item = String>>(iter: I, include_functions: bool) -> Self {
         let mut avoid_identifier = HashSet::from_iter(iter);
         avoid_identifier.extend(KEYWORDS.iter().map(|s| (*s).to_owned()));
+        // `self` is the implicit parameter of methods: it is never renamed, so it must never
+        // be generated for another variable
+        avoid_identifier.insert("self".to_owned());
 
         Self {
             real_to_obfuscated: Vec::new(),
